@@ -7,7 +7,7 @@
 (* rest of the trace is still examined.  The trace is accepted iff no      *)
 (* MISMATCH line was printed and every line was consumed (postcondition).  *)
 (***************************************************************************)
-EXTENDS UintArith, Json, IOUtils, TLC
+EXTENDS UintBits, Json, IOUtils, TLC
 
 Rec == ndJsonDeserialize(IOEnv.TRACE)
 
@@ -16,6 +16,7 @@ VARIABLE l          \* position in the trace
 Check(e) ==
   IF e.st # "ok" THEN [terminates |-> FALSE]     \* hang or crash of the code under test
   ELSE CASE e.g = "arith" -> CheckArith(e)
+         [] e.g = "bits"  -> CheckBits(e)
          [] OTHER -> [unknown_group |-> FALSE]
 
 Fails(c) == {f \in DOMAIN c : ~c[f]}
